@@ -50,6 +50,15 @@ def gen_systematic(rng, two=False):
     return parprops.one_preemption_cases(base, parrun.run_par_case)
 
 
+def copyable(desc):
+    """may the consumer iterate a copy() instead?  Not with a user-written source /
+    stage (no copy()), and not with a tiling above a per-epoch reshuffle (recorded
+    finding of C13: the copy of such a pipeline iterates in another order)"""
+    ops = [s['op'] for s in desc['stages']]
+    return desc['source'].get('kind') != 'user' and 'user' not in ops \
+        and 'userstage' not in ops and 'tile' not in ops and 'cycle' not in ops
+
+
 def gen(rng, tier, index):
     if tier == 'thorough' and index % 3000 == 2999:
         return gen_systematic(rng, two=True)
@@ -96,9 +105,11 @@ def gen(rng, tier, index):
     items = bool(pre_ is not None and pre_.items and pi == len(desc['stages']) - 1
                  and (pst_['op'] == 'parmap' or not pargen.is_pool(pst_))
                  and rng.random() < 0.4)
+    via_copy = copyable(desc) and rng.random() < 0.15
     cases = []
     for plan in plans:
         cases.append({
+            **({'via_copy': True} if via_copy else {}),
             'desc': desc, 'sched': pargen.gen_sched(rng), 'epochs': rng.choice([1, 1, 2]),
             **({'items': True} if items else {}),
             'faults': plan, 'cost_seed': rng.randrange(1000),
